@@ -14,6 +14,7 @@ import (
 	"fmt"
 	"net"
 	"sort"
+	"strings"
 	"sync"
 	"time"
 
@@ -58,6 +59,8 @@ func mappedOf(c *net.UDPConn, hard bool) []string {
 	return []string{fmt.Sprintf("%s:%d", a.IP.String(), p), real}
 }
 
+var attemptTimeout = 80 * time.Second
+
 func makeHolePair(vConn, cConn *net.UDPConn, vResp, cResp *msg.NatHoleResp, key []byte, cStart, vStart time.Time) (string, string) {
 	var wg sync.WaitGroup
 	var errV, errC string
@@ -66,7 +69,7 @@ func makeHolePair(vConn, cConn *net.UDPConn, vResp, cResp *msg.NatHoleResp, key 
 		if d := time.Until(start); d > 0 {
 			time.Sleep(d)
 		}
-		ctx, cancel := context.WithTimeout(context.Background(), 80*time.Second)
+		ctx, cancel := context.WithTimeout(context.Background(), attemptTimeout)
 		defer cancel()
 		_, raddr, err := nathole.MakeHole(ctx, conn, r, key)
 		if err != nil {
@@ -94,13 +97,17 @@ func runRendezvous(cfg *hx.RunCfg) error {
 	}
 	plans := []keyPlan{{"easy-easy", false, false, 10}, {"hardreg-easy", true, false, 9}, {"hardreg-hardreg", true, true, 9}}
 	maxDelay := 3000
+	attemptTimeout = 12 * time.Second // quick: an attempt that lost its message is cancelled instead of reading for 35 s
 	if cfg.Tier != "quick" {
 		maxDelay = 1 << 30
+		attemptTimeout = 80 * time.Second
 	}
 	var mu sync.Mutex
 	var rows []*rvRow
 	var outer sync.WaitGroup
 	var fails []map[string]string
+	var retried []string
+	oneSided := 0
 	for _, pl := range plans {
 		pl := pl
 		outer.Add(1)
@@ -163,6 +170,20 @@ func runRendezvous(cfg *hx.RunCfg) error {
 				mu.Lock()
 				rows = append(rows, row)
 				mu.Unlock()
+				// "the receiver is still listening when the sender starts", on the instructions the real controller sent:
+				// the sender's response is staggered by 1 s, then the sender waits SendDelayMs
+				snd, rcv := vResp, cResp
+				if cResp.DetectBehavior.Role == "sender" {
+					snd, rcv = cResp, vResp
+				}
+				if vResp.Error == "" && rcv.DetectBehavior.ReadTimeoutMs < snd.DetectBehavior.SendDelayMs+1000+3000 {
+					mu.Lock()
+					fails = append(fails, map[string]string{"key": "receiver-gives-up-before-sender-starts",
+						"what": fmt.Sprintf("mode %d: the receiver reads for %d ms, the sender starts %d ms (stagger 1000 + SendDelayMs %d) after it",
+							rcv.DetectBehavior.Mode, rcv.DetectBehavior.ReadTimeoutMs, 1000+snd.DetectBehavior.SendDelayMs, snd.DetectBehavior.SendDelayMs),
+						"case": fmt.Sprintf("key=%s walk position %d: vResp.DetectBehavior=%+v cResp.DetectBehavior=%+v", pl.name, i, vResp.DetectBehavior, cResp.DetectBehavior)})
+					mu.Unlock()
+				}
 				if vResp.Error != "" || cResp.Error != "" {
 					row.errV, row.errC = vResp.Error, cResp.Error
 					continue
@@ -185,6 +206,14 @@ func runRendezvous(cfg *hx.RunCfg) error {
 							row.ok = true
 							break
 						}
+						if (row.errV == "") != (row.errC == "") {
+							mu.Lock()
+							oneSided++
+							mu.Unlock()
+						}
+						mu.Lock()
+						retried = append(retried, fmt.Sprintf("key=%s pos=%d mode=%d vRole=%s attempt=%d visitor=%q owner=%q", pl.name, row.index, row.mode, row.vRole, row.attempts, row.errV, row.errC))
+						mu.Unlock()
 						// retry with the same instructions, keeping the server's stagger between the two starts
 						now := time.Now()
 						d := vAt.Sub(cAt)
@@ -211,6 +240,7 @@ func runRendezvous(cfg *hx.RunCfg) error {
 		return rows[i].index < rows[j].index
 	})
 	ran := 0
+	var candidates []map[string]string
 	for _, r := range rows {
 		switch {
 		case r.skipped:
@@ -224,6 +254,18 @@ func runRendezvous(cfg *hx.RunCfg) error {
 		default:
 			ran++
 			dist[fmt.Sprintf("mode%d_FAILED", r.mode)]++
+			// signature of the MakeHole race reported as F-C20c (multi-socket receiver drops a detect message that is
+			// already queued when its readers start, and closes that socket): the receiver timed out, the sender succeeded
+			recvErr, sndErr := r.errV, r.errC
+			if r.vRole == "sender" {
+				recvErr, sndErr = r.errC, r.errV
+			}
+			if (r.mode == 2 || r.mode == 4) && sndErr == "" && strings.HasPrefix(recvErr, "wait detect message") {
+				candidates = append(candidates, map[string]string{"key": "nathole.go:MakeHole:first-result-dropped",
+					"what": fmt.Sprintf("mode %d receiver lost the sender's detect message in 3 attempts (sender succeeded each time): %q", r.mode, recvErr),
+					"case": fmt.Sprintf("key=%s position=%d mode=%d", r.key, r.index, r.mode)})
+				continue
+			}
 			fails = append(fails, map[string]string{"key": fmt.Sprintf("rendezvous-failed-mode%d", r.mode),
 				"what": fmt.Sprintf("two honest peers on loopback did not find each other (3 attempts): mode %d, walk position %d of key %s, visitor role %s, max SendDelayMs %d; visitor: %q owner: %q",
 					r.mode, r.index, r.key, r.vRole, r.delay, r.errV, r.errC),
@@ -239,6 +281,9 @@ func runRendezvous(cfg *hx.RunCfg) error {
 	cfg.St["distribution"] = dist
 	cfg.St["samples"] = samples
 	cfg.St["rows_walked"] = len(rows)
+	cfg.St["finding_candidates"] = candidates
+	cfg.St["failed_attempts"] = retried
+	cfg.St["one_sided_attempts"] = oneSided
 	cfg.St["label"] = "observation (runtime residue): real MakeHole for both roles over loopback UDP"
 	if fails == nil {
 		fails = []map[string]string{}
